@@ -250,7 +250,7 @@ func search(t *testing.T, p Property) {
 				return // budget exhausted: let the batch drain quickly
 			}
 			scn := p.Gen(rt, *fThorough)
-			tape := genTape(rt, maxTape)
+			tape := genTape(rt, maxTape, scn.(knobbed).knobs().Dense)
 			out := RunCase(t, p, scn, scn.(knobbed).knobs(), tape, false)
 			if target == "" { // statistics only for the search phase, not for shrinking
 				res.Cases++
